@@ -29,7 +29,7 @@ func genC11(dir, tier string, seed int64) {
 		reps = 200
 	}
 	cw := newCaseWriter(dir, "C11_ops", opHeader("CheckC11"), opFooter,
-		"Cast: all 10x10 numeric (source, target) pairs x value pools (integer extremes of the source, values around the extremes of the target, ties-to-even cases for int->float and float64->float32, +-0, subnormals, +-Inf, NaN for float targets; float->integer only with values whose truncation is representable in the target, incl. above 2^63 for uint64) x shapes of rank 0..3, plus unsupported target codes; ConstantOfShape: every element type as value x shapes rank 1..4 (and invalid: zero/negative extents, two-element value, unknown attribute); Constant: every attribute form (value tensor of every type and rank 0..3, value_float(s), value_int(s), refused forms, wrong attribute counts)", false, 300)
+		"Cast: all 10x10 numeric (source, target) pairs x value pools (integer extremes of the source, values around the extremes of the target, ties-to-even cases for int->float and float64->float32, +-0, subnormals, +-Inf, NaN for float targets; float->integer only with values whose truncation is representable in the target, incl. above 2^63 for uint64) x shapes of rank 0..3, plus unsupported target codes; ConstantOfShape: every element type as value x shapes rank 1..4 (and invalid: zero/negative extents, two-element value, unknown attribute); Constant: every attribute form (value tensor of every type and rank 0..3, value_float(s), value_int(s) -- zero scalars and all-zero lists included --, refused forms, wrong attribute counts)", false, 300)
 
 	// ---------------- Cast ----------------
 	for _, src := range castTypes {
@@ -184,6 +184,11 @@ func genC11(dir, tier string, seed int64) {
 		emitOp(cw, "Constant", []attr{aInt("value_int", iv)}, func() []tensor.Tensor { return nil })
 		is := []int64{iv, castIntValue(r, 64, true), 0}
 		emitOp(cw, "Constant", []attr{aInts("value_ints", is[:1+r.Intn(3)])}, func() []tensor.Tensor { return nil })
+	}
+	// zero payloads: a zero scalar is a value like any other (in proto3 it is not even written to the wire)
+	negZero := float32(math.Copysign(0, -1))
+	for _, a := range []attr{aInt("value_int", 0), aFloat("value_float", 0), aFloat("value_float", negZero), aInts("value_ints", []int64{0}), aInts("value_ints", []int64{0, 0}), aFloats("value_floats", []float32{0}), aFloats("value_floats", []float32{negZero, 0})} {
+		emitOp(cw, "Constant", []attr{a}, func() []tensor.Tensor { return nil })
 	}
 	for _, a := range []attr{aStr("value_string", "x"), aStrs("value_strings", []string{"x"}), aInt("sparse_value", 1), aInt("nonsense", 1)} {
 		emitOp(cw, "Constant", []attr{a}, func() []tensor.Tensor { return nil })
